@@ -44,6 +44,20 @@ fn lines_applesoft(tok: &[u8]) -> Vec<(u16,Vec<u8>)> {
 pub fn dispatch(toks: &[&str]) -> String {
     match toks[0] {
         "tokrt" => tokrt(toks),
+        "analyze" => {
+            // analyze id lang hextext : the analyzer the language server runs, on one document, under a watchdog
+            let lang_name = toks[2].to_string();
+            let src = as_text(if toks[3]=="-" { "" } else { toks[3] });
+            crate::malform::with_watchdog(move || {
+                use a2kit::lang::server::Analysis;
+                let doc = lang::Document::from_string(src,0);
+                match lang_name.as_str() {
+                    "applesoft" => { let mut a = lang::applesoft::diagnostics::Analyzer::new(); match a.analyze(&doc) { Ok(()) => format!("diags={}",a.get_diags(&doc).len()), Err(e) => format!("err {}",e) } },
+                    "integerbasic" => { let mut a = lang::integer::diagnostics::Analyzer::new(); match a.analyze(&doc) { Ok(()) => format!("diags={}",a.get_diags(&doc).len()), Err(e) => format!("err {}",e) } },
+                    _ => { let mut a = lang::merlin::diagnostics::Analyzer::new(); match a.analyze(&doc) { Ok(()) => format!("diags={}",a.get_diags(&doc).len()), Err(e) => format!("err {}",e) } }
+                }
+            })
+        },
         "applyright" => {
             // applyright id linehex c0 c1 texthex ... : lang::apply_edits on a one-line document (edits given in any order)
             let line = as_text(if toks[2]=="-" { "" } else { toks[2] });
@@ -187,6 +201,27 @@ fn tokrt_inner(toks: &[&str]) -> String {
             }
             let want_nums: Vec<u16> = src.lines().filter(|l| l.trim_start().len()>0).map(|l| l.trim_start().chars().take_while(|c| c.is_ascii_digit()).collect::<String>().parse::<u16>().unwrap_or(0)).collect();
             if nums!=want_nums { return format!("FAIL structure: line numbers {:?} but the source has {:?}",&nums[..nums.len().min(8)],&want_nums[..want_nums.len().min(8)]); }
+            // numeric literals: the byte in front of the binary value is B0 + the first decimal digit of that value (what the machine stores)
+            let mut i = 0;
+            while i < t1.len() {
+                let l = t1[i] as usize;
+                let mut j = i+3;
+                while j < i+l-1 {
+                    let b = t1[j];
+                    if b==0x28 { j += 1; while j < i+l-1 && t1[j]!=0x29 { j += 1; } j += 1; }
+                    else if b==0x5d { break; }
+                    else if b>=0xb0 && b<=0xb9 {
+                        if j+2 >= i+l { return format!("FAIL structure: numeric literal cut off at offset {}",j); }
+                        let v = u16::from_le_bytes([t1[j+1],t1[j+2]]);
+                        let first = v.to_string().as_bytes()[0];
+                        if b != first+128 { return format!("FAIL structure: numeric literal {} is introduced by {:02X}, the machine stores {:02X}",v,b,first+128); }
+                        j += 3;
+                    }
+                    else if b>=0x80 { while j < i+l-1 && t1[j]>=0x80 { j += 1; } }
+                    else { j += 1; }
+                }
+                i += l;
+            }
             let d = match t.detokenize(&t1) { Ok(s) => s, Err(e) => return format!("FAIL detokenize of own output failed: {}",e) };
             if lang::verify_str(tree_sitter_integerbasic::language(),&d).is_err() { return format!("FAIL the detokenized source is not accepted again: {}",d.replace('\n',"|").chars().take(200).collect::<String>()); }
             let mut t2z = lang::integer::tokenizer::Tokenizer::new();
